@@ -39,6 +39,7 @@ import (
 	banktypes "github.com/cosmos/cosmos-sdk/x/bank/types"
 	stakingtypes "github.com/cosmos/cosmos-sdk/x/staking/types"
 	"github.com/palomachain/paloma/v2/app"
+	chainparams "github.com/palomachain/paloma/v2/app/params"
 	"github.com/palomachain/paloma/v2/testutil/common"
 )
 
@@ -107,6 +108,9 @@ type E2 struct {
 // Set-up errors panic (harness bugs, never verdicts).
 func NewE2(o E2Options) *E2 {
 	common.SetupPalomaPrefixes()
+	// the node binary (app/params.SetAddressPrefixes) also sets the consensus-node prefix; without it exported state
+	// (distribution's previous proposer, slashing) carries "cosmosvalcons..." strings the app's own codecs reject
+	sdk.GetConfig().SetBech32PrefixForConsensusNode(chainparams.ConsNodeAddressPrefix, chainparams.ConsNodePubKeyPrefix)
 	version.Version = "v2.4.11"
 	if o.ChainID == "" {
 		o.ChainID = "verif-e2"
